@@ -40,6 +40,10 @@ func c02Events(fd *ast.FuncDecl, keep func(string) bool) []string {
 				if se, ok := x.Fun.(*ast.SelectorExpr); ok {
 					walk(se.X, prefix)
 				}
+				if fl, ok := x.Fun.(*ast.FuncLit); ok { // go func() { ... }() / immediately called literal
+					walk(fl.Body, prefix)
+					return false
+				}
 				name := exprName(x.Fun)
 				if name != "verifhook.Yield" && (keep == nil || keep(prefix+name)) {
 					out = append(out, prefix+name)
@@ -353,6 +357,40 @@ func init() {
 			ok := deferred && len(before) == 0
 			fmt.Fprintf(&sb, "\n/-- does CommitFamilyEditLog take its snapshot and clone the version inside vs.mutex? -/\n")
 			fmt.Fprintf(&sb, "def commitCloneUnderLock : Bool := %v\n", ok)
+		}
+		// NextFileNumber: is the counter incremented inside vs.mutex?
+		{
+			fd, err := need(vs, "storeVersionSet", "NextFileNumber")
+			if err != nil {
+				return "", err
+			}
+			ev := c02Events(fd, c02Keep("mutex.Lock", "defer:mutex.Unlock", "nextFileNumber.Inc"))
+			locked, ok := false, false
+			for _, e := range ev {
+				if e == "mutex.Lock" {
+					locked = true
+				}
+				if e == "nextFileNumber.Inc" && locked {
+					ok = true
+				}
+			}
+			fmt.Fprintf(&sb, "\n/-- does NextFileNumber allocate under vs.mutex (which CommitFamilyEditLog holds from reading the counter to storing it back)? -/\n")
+			fmt.Fprintf(&sb, "def allocUnderCommitLock : Bool := %v\n", ok)
+		}
+		// family.rollup (source side): the DeleteRollupFile records are created per target AFTER that
+		// target's doRollupWork, the commit comes after the loop, deleteObsoleteFiles is deferred
+		{
+			fr, err := parse("kv/family_rollup.go")
+			if err != nil {
+				return "", err
+			}
+			fd, err := need(fr, "family", "rollup")
+			if err != nil {
+				return "", err
+			}
+			def("rollupCalls", c02Events(fd, c02Keep("rolluping.CompareAndSwap", "f.deleteObsoleteFiles", "familyVersion.GetLiveRollupFiles",
+				"GetStoreManager().GetStoreByName", "targetStore.CreateFamily", "targetFamily.doRollupWork", "version.CreateDeleteRollupFile",
+				"f.commitEditLog", "targetFamily.cleanReferenceFiles")))
 		}
 		fmt.Fprintf(&sb, "\n/-- does `removeVersion` re-check `ref == 0` under the family lock before deleting? -/\n")
 		fmt.Fprintf(&sb, "def removeVersionRechecksRef : Bool := %v\n", c02RemoveRechecks(removeSteps))
